@@ -231,26 +231,23 @@ theorem setLoop_mantissa (neg : Bool) (ids fds : List Nat) (frac : Bool) (tl : L
 
 open Sonic.Proofs.Number (accDigits accDigits_cons accDigits_nil le_accDigits digitsVal_eq)
 
+/-- `SetDecimal`'s exponent loop (all digits are consumed; accumulation stops at `10^15`) computes the same capped
+    value as `parseNumber`'s -/
 theorem expLoop_digits (eds r : List Nat) (hr : r = [] ∨ ∃ c r', r = c :: r' ∧ isDigit c = false) :
-    ∀ e : Nat, (∀ c ∈ eds, 48 ≤ c ∧ c ≤ 57) → accDigits e eds < 100000 →
-      expLoop (eds ++ r) (e : Int) = (accDigits e eds : Int) := by
+    ∀ e : Int, (∀ c ∈ eds, 48 ≤ c ∧ c ≤ 57) → expLoop (eds ++ r) e = Sonic.Proofs.Number.capAcc e eds := by
   induction eds with
   | nil =>
-    intro e _ _
+    intro e _
     rcases hr with h | ⟨c, r', h, hc⟩
     · subst h; rfl
     · subst h
-      simp only [List.nil_append, accDigits_nil]
+      simp only [List.nil_append, Sonic.Proofs.Number.capAcc, List.foldl_nil]
       rw [expLoop, if_neg (by simp [hc])]
   | cons c eds ih =>
-    intro e hd hlt
+    intro e hd
     have hc := hd c (List.mem_cons_self ..)
-    rw [accDigits_cons] at hlt ⊢
-    have hle := le_accDigits (e * 10 + (c - 48)) eds
-    rw [List.cons_append, expLoop, if_pos ⟨(isDigit_iff c).2 hc, by omega⟩]
-    have e1 : (e : Int) * 10 + ((c : Int) - 48) = ((e * 10 + (c - 48) : Nat) : Int) := by omega
-    rw [e1]
-    exact ih _ (fun x hx => hd x (List.mem_cons_of_mem _ hx)) hlt
+    rw [List.cons_append, expLoop, if_pos ((isDigit_iff c).2 hc), ih _ (fun x hx => hd x (List.mem_cons_of_mem _ hx))]
+    simp only [Sonic.Proofs.Number.capAcc, List.foldl_cons]
 
 /-- the part of `SetDecimal` after the digit loop -/
 def finishSet (r : Decimal × Bool × Int × List Nat) : Decimal :=
@@ -263,7 +260,7 @@ def finishSet (r : Decimal × Bool × Int × List Nat) : Decimal :=
         | 45 :: r' => (-1, r')
         | _ => (1, r)
       let exp := expLoop r 0
-      { d with dp := d.dp + exp * esgn }
+      { d with dp := clampDp (d.dp + exp * esgn) }
     else d
   | [] => d
 
@@ -292,13 +289,12 @@ def SignBytes (sg : List Nat) (es : Int) : Prop := (sg = [43] ∧ es = 1) ∨ (s
 
 theorem finishSet_exp (d : Decimal) (s : Bool) (dr : Int) (ce : Nat) (sg eds rest : List Nat) (es : Int)
     (hce : ce = 101 ∨ ce = 69) (hsg : SignBytes sg es) (heds : ∀ c ∈ eds, 48 ≤ c ∧ c ≤ 57) (hne : eds ≠ [])
-    (hval : digitsVal eds < 100000) (hr : rest = [] ∨ ∃ c r', rest = c :: r' ∧ isDigit c = false) :
+    (hr : rest = [] ∨ ∃ c r', rest = c :: r' ∧ isDigit c = false) :
     finishSet (d, s, dr, ce :: (sg ++ eds ++ rest)) =
       { (if s then d else { d with dp := (d.nd : Int) + dr }) with
-        dp := (if s then d else { d with dp := (d.nd : Int) + dr }).dp + (digitsVal eds : Int) * es } := by
-  have hexp := expLoop_digits eds rest hr 0 heds (by rw [← digitsVal_eq]; exact hval)
-  rw [← digitsVal_eq] at hexp
-  simp only [Nat.cast_zero] at hexp
+        dp := clampDp ((if s then d else { d with dp := (d.nd : Int) + dr }).dp +
+          Sonic.Proofs.Number.capAcc 0 eds * es) } := by
+  have hexp := expLoop_digits eds rest hr 0 heds
   unfold finishSet
   simp only
   rw [if_pos hce]
@@ -327,37 +323,5 @@ theorem finishSet_exp (d : Decimal) (s : Bool) (dr : Int) (ce : Nat) (sg eds res
     rw [hm]
     simp only [List.cons_append] at hexp
     rw [hexp]
-
-/-- `finishSet_exp` without evaluating the exponent loop -/
-theorem finishSet_exp' (d : Decimal) (s : Bool) (dr : Int) (ce : Nat) (sg eds rest : List Nat) (es : Int)
-    (hce : ce = 101 ∨ ce = 69) (hsg : SignBytes sg es) (heds : ∀ c ∈ eds, 48 ≤ c ∧ c ≤ 57) (hne : eds ≠ []) :
-    finishSet (d, s, dr, ce :: (sg ++ eds ++ rest)) =
-      { (if s then d else { d with dp := (d.nd : Int) + dr }) with
-        dp := (if s then d else { d with dp := (d.nd : Int) + dr }).dp + expLoop (eds ++ rest) 0 * es } := by
-  unfold finishSet
-  simp only
-  rw [if_pos hce]
-  rcases hsg with ⟨h1, h2⟩ | ⟨h1, h2⟩ | ⟨h1, h2⟩
-  · subst h1 h2
-    simp only [List.cons_append, List.nil_append, List.append_assoc]
-  · subst h1 h2
-    simp only [List.cons_append, List.nil_append, List.append_assoc]
-  · subst h1 h2
-    obtain ⟨c0, eds', rfl⟩ : ∃ c0 eds', eds = c0 :: eds' := by
-      cases eds with
-      | nil => exact absurd rfl hne
-      | cons c0 eds' => exact ⟨c0, eds', rfl⟩
-    have hc0 := heds c0 (List.mem_cons_self ..)
-    simp only [List.nil_append, List.cons_append]
-    have hm : (match c0 :: (eds' ++ rest) with
-        | 43 :: r' => ((1 : Int), r')
-        | 45 :: r' => (-1, r')
-        | _ => (1, c0 :: (eds' ++ rest))) = (1, c0 :: (eds' ++ rest)) := by
-      split
-      · rename_i h; simp at h; omega
-      · rename_i h; simp at h; omega
-      · rfl
-    rw [hm]
-
 
 end Sonic.Proofs.Dec
